@@ -56,11 +56,12 @@ type Route struct {
 	Handlers    []Handler   `json:"-"`      // Ctx handlers
 	routeParser routeParser // Parameter parser
 	// Data for routing
-	pos   uint32 // Position in stack -> important for the sort of the matched routes
-	use   bool   // USE matches path prefixes
-	mount bool   // Indicated a mounted app on a specific route
-	star  bool   // Path equals '*'
-	root  bool   // Path equals '/'
+	pos    uint32 // Position in stack -> important for the sort of the matched routes
+	regSeq uint32 // number of the registration call the (last merged) handlers come from
+	use    bool   // USE matches path prefixes
+	mount  bool   // Indicated a mounted app on a specific route
+	star   bool   // Path equals '*'
+	root   bool   // Path equals '/'
 }
 
 func (r *Route) match(detectionPath, path string, params *[maxParams]string) bool {
@@ -352,6 +353,7 @@ func (app *App) register(methods []string, pathRaw string, group *Group, handler
 	parsedPretty := parseRoute(pathPretty, app.customConstraints...)
 
 	isMount := group != nil && group.app != app
+	regSeq := atomic.AddUint32(&app.registerCount, 1)
 
 	for _, method := range methods {
 		method = utils.ToUpper(method)
@@ -377,6 +379,7 @@ func (app *App) register(methods []string, pathRaw string, group *Group, handler
 			Path:     pathRaw,
 			Method:   method,
 			Handlers: handlers,
+			regSeq:   regSeq,
 		}
 
 		// Increment global handler count
@@ -410,9 +413,13 @@ func (app *App) addRoute(method string, route *Route, isMounted ...bool) {
 	// Get unique HTTP method identifier
 	m := app.methodInt(method)
 
-	// prevent identically route registration
+	// prevent identically route registration: a route is merged into the previous one only when that one comes
+	// from the registration call immediately before (or the same one), so that every method stack groups the
+	// handlers of a path in the same way and the registration order between groups is never blurred
 	l := len(app.stack[m])
-	if l > 0 && app.stack[m][l-1].Path == route.Path && route.use == app.stack[m][l-1].use && !route.mount && !app.stack[m][l-1].mount {
+	if l > 0 && app.stack[m][l-1].Path == route.Path && route.use == app.stack[m][l-1].use && !route.mount && !app.stack[m][l-1].mount &&
+		route.regSeq-app.stack[m][l-1].regSeq <= 1 {
+		app.stack[m][l-1].regSeq = route.regSeq
 		preRoute := app.stack[m][l-1]
 		preRoute.Handlers = append(preRoute.Handlers, route.Handlers...)
 	} else {
